@@ -32,7 +32,7 @@ DEFAULT_PROFILE = {
     "p_http": 0.9, "p_signature": 0.7, "p_routing": 0.25, "p_keyword_rpc": 0.08,
     "p_service_config": 0.8, "p_yaml": 0.3, "p_reserved_field": 0.08, "p_two_services": 0.25,
     "p_foreign_request": 0.1, "p_shuffle_numbers": 0.2, "p_additional_binding": 0.25,
-    "p_auto_populate": 0.0, "p_google_api_ns": 0.0, "sig_variants": False, "p_multi_var_path": 0.0, "mixin_variants": False, "p_add_iam_methods": 0.0, "p_equal_sort_keys": 0.0, "p_reserved_path_var": 0.0, "p_local_empty": 0.0, "p_same_method_two_services": 0.0, "p_required_enum": 0.0, "p_custom_http_pattern": 0.0, "p_real_api": 0.04, "p_nested_name_ties": 0.15, "p_double_star_path": 0.0, "common_file_names": ["resources"],
+    "p_auto_populate": 0.0, "p_google_api_ns": 0.0, "sig_variants": False, "p_multi_var_path": 0.0, "mixin_variants": False, "p_add_iam_methods": 0.0, "p_equal_sort_keys": 0.0, "p_reserved_path_var": 0.0, "p_local_empty": 0.0, "p_same_method_two_services": 0.0, "p_required_enum": 0.0, "p_custom_http_pattern": 0.0, "p_real_api": 0.04, "p_nested_name_ties": 0.15, "p_double_star_path": 0.0, "p_value_fields": 0.0, "p_mixed_foreign_io": 0.0, "common_file_names": ["resources"],
     "transports": ["grpc", "grpc+rest", "grpc+rest", "rest"],
     "p_numeric_enums": 0.3,
     "paged_variants": False,
@@ -64,7 +64,7 @@ def _fresh_name(rng, used, pool=FIELD_NAMES):
     return n
 
 
-def _rand_field(cx, used, number, enums, msgs, allow_oneof=None, depth=0):
+def _rand_field(cx, used, number, enums, msgs, allow_oneof=None, depth=0, allow_value=False):
     rng = cx.rng
     if cx.chance("p_reserved_field"):
         name = _fresh_name(rng, used, RESERVED_FIELD_NAMES)
@@ -93,6 +93,12 @@ def _rand_field(cx, used, number, enums, msgs, allow_oneof=None, depth=0):
     elif c < 0.88:
         f["type"] = "message"
         f["type_name"] = rng.choice(WKT)
+        if allow_value and cx.chance("p_value_fields"):
+            # google.protobuf.Value (only in C05's profile: proto-plus cannot take a LIST of Values through a
+            # constructor or assignment, which is why the templates special-case repeated Value flattened fields)
+            f["type_name"] = ".google.protobuf.Value"
+            if rng.random() < 0.6:
+                f["repeated"] = True
     else:
         f["type"] = "message"  # placeholder type for map fields (ignored by lowering)
         vt = rng.random()
@@ -421,6 +427,9 @@ def _gen_methods(cx, pkg, main, svc, noun, res, enums, msgs):
         m = {"name": f"Create{noun}", "input": f"{P}.Create{noun}Request", "output": P + "." + noun}
         if cx.chance("p_http"):
             m["http"] = {"verb": "post", "path": f"{pre}/{{parent={pwild}}}/{coll}", "body": low}
+            if cx.chance("p_additional_binding") and rng.random() < 0.5:
+                m["http"]["body"] = "*"
+                m["http"]["additional"] = [{"verb": "post", "path": f"{pre}/{{parent=organizations/*}}/{coll}", "body": low}]
         if cx.chance("p_signature"):
             m["signatures"] = rng.choice([
                 [f"parent,{low},{low}_id"], [f"parent,{low},{low}_id", "parent," + low],
@@ -472,7 +481,7 @@ def _gen_methods(cx, pkg, main, svc, noun, res, enums, msgs):
             fields = [{"name": "name", "number": 1, "type": "string", "required": True, "resource_ref": rtype}]
             nums = _number_seq(cx, 4, 2)
             for i in range(rng.randint(1, 4)):
-                fields.append(_rand_field(cx, used, nums[i], enums, msgs))
+                fields.append(_rand_field(cx, used, nums[i], enums, msgs, allow_value=True))
             # a required scalar that is neither in path nor body (C04's required-default rule)
             if rng.random() < 0.4:
                 t = rng.choice(["int32", "bool", "string", "double", "int64", "uint32"])
@@ -544,6 +553,21 @@ def _gen_methods(cx, pkg, main, svc, noun, res, enums, msgs):
         if cx.chance("p_signature"):
             m["signatures"] = [f"parent,{idf}"]
         svc["methods"].append(m)
+
+    if cx.chance("p_mixed_foreign_io"):
+        if rng.random() < 0.5 and _unique_method(svc, f"GetDefault{noun}"):
+            # dependency-package REQUEST (google.protobuf.Empty), own-package reply
+            m = {"name": f"GetDefault{noun}", "input": ".google.protobuf.Empty", "output": P + "." + noun}
+            if cx.chance("p_http"):
+                m["http"] = {"verb": "get", "path": f"{pre}/{coll}:default"}
+            svc["methods"].append(m)
+        elif _unique_method(svc, f"Get{noun}Policy"):
+            # own-package request, dependency-package REPLY (google.iam.v1.Policy)
+            _msg(main, f"Get{noun}PolicyRequest", [{"name": "name", "number": 1, "type": "string", "required": True}])
+            m = {"name": f"Get{noun}Policy", "input": f"{P}.Get{noun}PolicyRequest", "output": ".google.iam.v1.Policy"}
+            if cx.chance("p_http"):
+                m["http"] = {"verb": "get", "path": f"{pre}/{{name={wild}}}:policy"}
+            svc["methods"].append(m)
 
     if cx.chance("p_sstream") and _unique_method(svc, f"Watch{noun}s"):
         _msg(main, f"Watch{noun}sRequest", [{"name": "parent", "number": 1, "type": "string"},
@@ -841,6 +865,8 @@ def gen_routing(rng, res, field="name"):
         {"field": field, "path_template": "projects/*/{" + segs[2][:-1].rstrip("e") + "_part=" + "/".join(wild[2:4]) + "}" + ("/**" if len(segs) > 4 else "")},
         {"field": field, "path_template": "{routing_id=projects/*/" + wild[2] + "/*}" + ("/**" if len(segs) > 4 else "")},
         {"field": field, "path_template": "{" + segs[-2][:-1] + "_id=" + "/".join(wild) + "}"},
+        {"field": field, "path_template": "projects/*/{rest=**}"},
+        {"field": field, "path_template": "/".join(wild[:2]) + "/{routing_id=**}"},
     ]
     c = rng.random()
     if c < 0.12:
